@@ -1,13 +1,183 @@
-import Pymeeus.Gen.R.SunEvents
-namespace Pymeeus.C14
-open Pymeeus Pymeeus.PR Pymeeus.GenR.SunEvents
+import Pymeeus.Refine.SunEvents
+import Pymeeus.Spec.SunEvents
+/-
+C14 — Seasons, equation of time and sunrise/sunset agree with the solar position.
 
-/-- "other years raise ValueError" (placeholder, replaced below) -/
-theorem season_jde0_out_of_range (year k : Int) (h : year < -1000 ∨ 3000 < year) :
-    season_jde0 year k = .error .valueError := by
+Property theorems only.  They are statements about `Pymeeus.GenR.SunEvents`, the real-number
+instantiation of templates/SunEvents.lean (the binary64 instantiation of the same text is compared
+bit for bit with CPython by harness/c14.py).  `sunLon` (Sun.apparent_geocentric_position) and
+`mk` (the constructor Epoch(jde)) are parameters of the model; every theorem quantifies over them.
+All numerical bounds of the property statement are measured by the harness, not proved.
+-/
+namespace Pymeeus.C14
+open Pymeeus Pymeeus.PR Pymeeus.GenR.SunEvents Pymeeus.Refine.SunEvents
+
+/-! ## Seasons -/
+
+/-- "other years raise ValueError": the approximate instant is refused exactly outside
+    −1000 … 3000 (bounds as coded: `year >= -1000`, `year <= 3000`). -/
+theorem season_jde0_valueerror_iff (year k : Int) :
+    season_jde0 year k = .error .valueError ↔ (year < -1000 ∨ 3000 < year) := by
   unfold season_jde0
-  have h1 : ¬ (year ≥ -1000 ∧ year < 1000) := by omega
-  have h2 : ¬ (year ≥ 1000 ∧ year ≤ 3000) := by omega
-  simp only [h1, h2, if_false]
+  by_cases h1 : year ≥ -1000 ∧ year < 1000
+  · simp only [h1, and_self, if_true]
+    constructor
+    · intro h; split_ifs at h
+    · intro h; omega
+  · by_cases h2 : year ≥ 1000 ∧ year ≤ 3000
+    · simp only [h1, h2, and_self, if_true, if_false]
+      constructor
+      · intro h; split_ifs at h
+      · intro h; omega
+    · simp only [h1, h2, if_false, true_iff]
+      omega
+
+/-- "other years raise ValueError", on the whole function: for a valid target, whatever the solar
+    longitude function, the Epoch constructor and the fuel. -/
+theorem season_year_out_of_range (mk : ℝ → PyRes ℝ) (sunLon : ℝ → ℝ) (fuel : Nat) (year : Int)
+    (target : String) (ht : target = "spring" ∨ target = "summer" ∨ target = "autumn" ∨ target = "winter")
+    (hy : year < -1000 ∨ 3000 < year) :
+    get_equinox_solstice mk sunLon fuel year target = .error .valueError := by
+  unfold get_equinox_solstice
+  rcases ht with rfl | rfl | rfl | rfl <;>
+    simp [season_index, (season_jde0_valueerror_iff year _).mpr hy]
+
+/-- A year inside −1000 … 3000 is not refused: with a total Epoch constructor the result is never an
+    exception (it is an instant or "out of fuel"). -/
+theorem season_year_in_range (mk : ℝ → PyRes ℝ) (hmk : ∀ x, ∃ y, mk x = .ok y) (sunLon : ℝ → ℝ)
+    (fuel : Nat) (year : Int) (target : String)
+    (ht : target = "spring" ∨ target = "summer" ∨ target = "autumn" ∨ target = "winter")
+    (hy : -1000 ≤ year ∧ year ≤ 3000) :
+    ∃ r, get_equinox_solstice mk sunLon fuel year target = .ok r := by
+  obtain ⟨k, hk⟩ : ∃ k, season_index target = .ok k := by
+    rcases ht with rfl | rfl | rfl | rfl <;> simp [season_index]
+  obtain ⟨j, hj⟩ := season_jde0_ok (k := k) hy
+  obtain ⟨e0, he0⟩ := hmk j
+  unfold get_equinox_solstice
+  simp only [hk, hj, he0]
+  cases hl : loopFuel (season_step mk sunLon k) fuel e0 with
+  | none => exact ⟨none, rfl⟩
+  | some r =>
+    cases r with
+    | ok e => exact ⟨some e, rfl⟩
+    | error err =>
+      obtain ⟨s', hs'⟩ := loopFuel_exit _ _ _ _ hl
+      exact absurd hs' (season_step_no_error hmk sunLon k s' err)
+
+/-- "ValueError if 'target' value is invalid": any string other than the four names, for every year. -/
+theorem season_bad_target (mk : ℝ → PyRes ℝ) (sunLon : ℝ → ℝ) (fuel : Nat) (year : Int) (target : String)
+    (ht : target ≠ "spring" ∧ target ≠ "summer" ∧ target ≠ "autumn" ∧ target ≠ "winter") :
+    get_equinox_solstice mk sunLon fuel year target = .error .valueError := by
+  unfold get_equinox_solstice season_index
+  simp [ht.1, ht.2.1, ht.2.2.1, ht.2.2.2]
+
+/-- The two polynomial families are selected as documented: table 27.A below year 1000, table 27.B
+    from year 1000, evaluated at Y = year/1000 resp. (year − 2000)/1000; the season index picks the row. -/
+theorem season_polynomial (year : Int) (k : Fin 4) (hy : -1000 ≤ year ∧ year ≤ 3000) :
+    season_jde0 year (k : Int) = .ok (Spec.SunEvents.jde0 year k) := by
+  unfold season_jde0 Spec.SunEvents.jde0 Spec.SunEvents.poly4
+  by_cases h1 : year < 1000
+  · have h1' : year ≥ -1000 ∧ year < 1000 := ⟨hy.1, h1⟩
+    simp only [h1', and_self, if_true]
+    fin_cases k <;> simp [Spec.SunEvents.table27A, ofInt] <;> norm_num <;> ring
+  · have h1' : ¬ (year ≥ -1000 ∧ year < 1000) := by omega
+    have h2 : year ≥ 1000 ∧ year ≤ 3000 := by omega
+    simp only [h2, and_self, if_true, if_false, h1]
+    fin_cases k <;> simp [Spec.SunEvents.table27B, ofInt] <;> norm_num <;> ring
+
+/-- Loop post-condition (partial correctness, ANY solar-longitude function, ANY Epoch constructor):
+    if `get_equinox_solstice` returns an instant `e`, there is an instant `eLast` — the last one at
+    which the solar longitude was evaluated — such that the correction `corr = 58 sin(k·90° − λ(eLast))`
+    computed there is at most 0.0000025 in absolute value and `e = Epoch(Epoch(eLast + corr) − corr)`
+    (the final `epoch -= corr` undoes the last `epoch += corr`). Nothing is said about termination. -/
+theorem season_post (mk : ℝ → PyRes ℝ) (sunLon : ℝ → ℝ) (fuel : Nat) (year : Int) (target : String) (e : ℝ)
+    (h : get_equinox_solstice mk sunLon fuel year target = .ok (some e)) :
+    ∃ k : Int, season_index target = .ok k ∧ ∃ eLast e' : ℝ,
+      mk (eLast + season_corr k (sunLon eLast)) = .ok e' ∧
+      mk (e' - season_corr k (sunLon eLast)) = .ok e ∧
+      |season_corr k (sunLon eLast)| ≤ 0.0000025 := by
+  unfold get_equinox_solstice at h
+  cases hk : season_index target with
+  | error err => rw [hk] at h; simp at h
+  | ok k =>
+    rw [hk] at h; simp only at h
+    cases hj : season_jde0 year k with
+    | error err => rw [hj] at h; simp at h
+    | ok j =>
+      rw [hj] at h; simp only at h
+      cases he0 : mk j with
+      | error err => rw [he0] at h; simp at h
+      | ok e0 =>
+        rw [he0] at h; simp only at h
+        cases hl : loopFuel (season_step mk sunLon k) fuel e0 with
+        | none => rw [hl] at h; simp at h
+        | some r =>
+          rw [hl] at h
+          cases r with
+          | error err => simp at h
+          | ok e1 =>
+            simp only [Except.ok.injEq, Option.some.injEq] at h
+            subst h
+            obtain ⟨s', hs'⟩ := loopFuel_exit _ _ _ _ hl
+            obtain ⟨e', h1, h2, h3⟩ := season_step_exit hs'
+            exact ⟨k, rfl, s', e', h1, h2, h3⟩
+
+/-- Loop post-condition with the ideal constructor (`Epoch(x)` stores `x`): the returned instant `e`
+    IS the last instant at which the solar longitude was evaluated, `|58 sin(k·90° − λ(e))| ≤ 0.0000025`,
+    and therefore `λ(e)` is within `arcsin(0.0000025/58)` (in degrees) of `k·90°` OR OF ITS ANTIPODE
+    `k·90° + 180°` (`n` even / odd) — that is all the loop condition gives; which of the two the
+    iteration reaches is not proved (measured by the harness for every year −1000 … 3000). -/
+theorem season_post_ideal (sunLon : ℝ → ℝ) (fuel : Nat) (year : Int) (target : String) (e : ℝ)
+    (h : get_equinox_solstice (fun x => .ok x) sunLon fuel year target = .ok (some e)) :
+    ∃ k : Int, season_index target = .ok k ∧
+      |58 * Real.sin (season_arg k (sunLon e) * (Real.pi / 180))| ≤ 0.0000025 ∧
+      ∃ n : ℤ, |((k : ℝ) * 90 - sunLon e) - 180 * n| ≤ Real.arcsin (0.0000025 / 58) * (180 / Real.pi) := by
+  obtain ⟨k, hk, eLast, e', h1, h2, h3⟩ := season_post _ sunLon fuel year target e h
+  simp only [Except.ok.injEq] at h1 h2
+  have he : e = eLast := by rw [← h2, ← h1]; ring
+  subst he
+  have hc : |58 * Real.sin (season_arg k (sunLon e) * (Real.pi / 180))| ≤ 0.0000025 := by
+    have : season_corr k (sunLon e) = 58 * Real.sin (season_arg k (sunLon e) * (Real.pi / 180)) := by
+      unfold season_corr psin pradians; norm_num
+    rw [← this]; exact h3
+  refine ⟨k, hk, hc, ?_⟩
+  have hs : |Real.sin (season_arg k (sunLon e) * (Real.pi / 180))| ≤ 0.0000025 / 58 := by
+    rw [abs_mul] at hc
+    rw [le_div_iff₀ (by norm_num)]
+    have : |(58 : ℝ)| = 58 := abs_of_pos (by norm_num)
+    rw [this] at hc; linarith
+  obtain ⟨m, hm⟩ := near_int_mul_pi_of_abs_sin_le hs
+  obtain ⟨n, hn⟩ := season_arg_congr k (sunLon e)
+  refine ⟨m + 2 * n, ?_⟩
+  have hpi : 0 < Real.pi := Real.pi_pos
+  have key : ((k : ℝ) * 90 - sunLon e) - 180 * ((m + 2 * n : ℤ) : ℝ)
+      = (season_arg k (sunLon e) * (Real.pi / 180) - m * Real.pi) * (180 / Real.pi) := by
+    rw [hn]; push_cast; field_simp; ring
+  rw [key, abs_mul, abs_of_pos (by positivity : (0 : ℝ) < 180 / Real.pi)]
+  exact mul_le_mul_of_nonneg_right hm (by positivity)
+
+/-! ## Equation of time -/
+
+/-- The "±180° reduction" `e = e - 360.0 * round(e / 360.0)` does NOT reduce: carried out on `Angle`
+    objects as coded it returns `e` unchanged for every `e` an Angle can hold (|e| < 360). -/
+theorem eot_reduction_is_identity (e : ℝ) (h : |e| < 360) : eot_reduce e = e := eot_reduce_id h
+
+/-- The clause "the reduction brings the value into (−180°, 180°]" is false of the code:
+    358° (L0 = 359°, α = 1°: the day after the March equinox) stays 358°, and the function then
+    reports 352 minutes. -/
+theorem eot_reduction_counterexample :
+    ¬ (-180 < eot_reduce 358 ∧ eot_reduce 358 ≤ 180) ∧ (eot_split (eot_reduce 358)).1 = 352 := by
+  have h : eot_reduce 358 = 358 := eot_reduce_id (by norm_num)
+  rw [h]
+  refine ⟨by norm_num, ?_⟩
+  unfold eot_split aMulF aReduce ple pabs pmod ptrunc imod ofInt
+  norm_num [show Int.fmod 1432 360 = 352 from by decide]
+
+/-- What remains true of the reduction (explicit hypothesis: the value already is in (−180°, 180°]):
+    it stays there. Missing for the full clause: any reduction at all for 180° < |e| < 360°. -/
+theorem eot_reduction_partial (e : ℝ) (h : -180 < e ∧ e ≤ 180) :
+    -180 < eot_reduce e ∧ eot_reduce e ≤ 180 := by
+  rw [eot_reduce_id (by rw [abs_lt]; constructor <;> linarith)]
+  exact h
 
 end Pymeeus.C14
